@@ -33,10 +33,10 @@ ASSUMPTIONS = [
     "bound for calls in progress: 10 s command timeout + 16 s (five ACK timeouts of at most 3.2 s) + 0.5 s slack after the injection",
 ]
 PROBES = ["faulty_link_before_injection", "failure_frame_destroyed_by_line", "threaded.runs", "threaded.preempted_in_proxy", "kind.error", "kind.rstack", "kind.silent", "kind.lost", "kind.eof", "kind.close", "workload.idle", "workload.one", "workload.queued",
-          "workload.reset", "workload.startup", "reported", "reported_twice", "silent_detected_by_retries", "silent_during_reset_timeout", "silent_but_nak.nak", "silent_but_nak.naklast", "silent_but_chatty",
-          "data_received_raised", "inject_at_timer_deadline", "calls_in_progress_at_injection", "caller_cancelled_after_injection", "failure_before_registration", "registry_history.overlap", "registry_history.churn", "registry_history.both", "command_after_report_raised_other_than_ezsp_error", "sched.batch", "sched.reorder", "sched.join"]
+          "workload.reset", "workload.startup", "workload.scan", "reported", "reported_twice", "silent_detected_by_retries", "silent_during_reset_timeout", "silent_but_nak.nak", "silent_but_nak.naklast", "silent_but_chatty",
+          "data_received_raised", "inject_at_timer_deadline", "calls_in_progress_at_injection", "caller_cancelled_after_injection", "failure_before_registration", "second_connection_of_one_ezsp_object", "registry_history.overlap", "registry_history.churn", "registry_history.both", "command_after_report_raised_other_than_ezsp_error", "sched.batch", "sched.reorder", "sched.join"]
 
-WORKLOADS = ("idle", "one", "queued", "reset", "startup")
+WORKLOADS = ("idle", "one", "queued", "reset", "startup", "scan")
 KINDS = ("error", "rstack", "silent", "lost", "eof", "close")
 ERR_CODES = (0x51, 0x80, 0x02)
 RST_CODES = (0x02, 0x03, 0x00, 0x06, 0x09, 0x80, 0x33, 0x51)
@@ -72,6 +72,9 @@ def plan(tier):
                     # the same failure after the callback registry went through a history around the application's registration
                     for h in HISTORIES[1:]:
                         sweeps.append(("inject", {"workload": w, "kind": kind, "code": codes[0], "at": at, "sched": False, "hist": h}))
+                if kind != "close" and w in ("idle", "one") and at in pts[1:6:2]:
+                    # the same failure on the SECOND connection of one EZSP object (connect, deliberate close, connect again)
+                    sweeps.append(("inject", {"workload": w, "kind": kind, "code": codes[0], "at": at, "sched": False, "reconnect": True}))
                 if kind == "silent" and w in ("idle", "one", "queued") and at in pts[::3]:
                     # an NCP that stops acknowledging without going quiet: every DATA frame (or only the last copy of one) is answered with a NAK
                     for deaf in ("nak", "naklast", "chatty"):
@@ -113,7 +116,7 @@ def run(scenario, params, tape, detail=False):
         return run_threaded_one(params, tape, detail)
     if scenario == "inject":
         return run_one(params["workload"], params["kind"], params["code"], params["at"], tape, params.get("sched", True), detail, cancel_after=params.get("cancel_after"),
-                       prefail=params.get("prefail", False), rst_delay=params.get("rst_delay", 0.3), hist=params.get("hist"), deaf=params.get("deaf"))
+                       prefail=params.get("prefail", False), rst_delay=params.get("rst_delay", 0.3), hist=params.get("hist"), deaf=params.get("deaf"), reconnect=params.get("reconnect", False))
     w = WORKLOADS[tape.draw(len(WORKLOADS), "workload")]
     kind = KINDS[tape.draw(len(KINDS), "kind")]
     code = None
@@ -124,7 +127,8 @@ def run(scenario, params, tape, detail=False):
     prefail = kind != "silent" and scenario not in ("faulty", "history") and tape.draw(5, "prefail") == 4
     hist = HISTORIES[1 + tape.draw(len(HISTORIES) - 1, "hist")] if scenario == "history" else None
     deaf = (None, "nak", "naklast", "chatty")[tape.draw(4, "deaf")] if kind == "silent" and scenario == "random" else None
-    return run_one(w, kind, code, ("draw",), tape, True, detail, faulty=(scenario == "faulty"), prefail=prefail, hist=hist, deaf=deaf)
+    reconnect = scenario == "random" and not prefail and tape.draw(4, "reconnect") == 3
+    return run_one(w, kind, code, ("draw",), tape, True, detail, faulty=(scenario == "faulty"), prefail=prefail, hist=hist, deaf=deaf, reconnect=reconnect)
 
 
 CANCEL_AFTER = (0.3, 1.0, 2.5, 6.0, 11.0, 13.0)
@@ -136,7 +140,7 @@ CANCEL_AFTER = (0.3, 1.0, 2.5, 6.0, 11.0, 13.0)
 HISTORIES = (None, "overlap", "churn", "both")
 
 
-def run_one(workload, kind, code, at, tape, sched, detail, dry=False, faulty=False, cancel_after=None, prefail=False, rst_delay=0.3, hist=None, deaf=None):
+def run_one(workload, kind, code, at, tape, sched, detail, dry=False, faulty=False, cancel_after=None, prefail=False, rst_delay=0.3, hist=None, deaf=None, reconnect=False):
     sock = workload == "startup"
     if faulty:
         # link faults (and read chunking, NCP window) until the injection; the failure itself is then delivered over a clean line
@@ -281,6 +285,18 @@ def run_one(workload, kind, code, at, tape, sched, detail, dry=False, faulty=Fal
                 ez.remove_callback(ids[2])
         else:
             ez.add_callback(cb)
+        st["t_plain"] = loop.time()
+        if reconnect and not dry:
+            # one EZSP object, two connections: a deliberate close, then connect() and bring-up again on the same object
+            probe("second_connection_of_one_ezsp_object")
+            ez.close()
+            await asyncio.sleep(0.5)
+            if reports:
+                viol.append(("C10.quiet", "report-after-close", f"{workload}/{kind}: the deliberate close() before the reconnect produced a controller-reset request"))
+            await ez.connect(use_thread=False)
+            await ez.startup_reset()
+            nash_now = rig.ncp_ash
+            assert nash_now is nash
         await asyncio.sleep(0.1)
         st["t_ready"] = loop.time()
         t0 = loop.time()
@@ -294,14 +310,14 @@ def run_one(workload, kind, code, at, tape, sched, detail, dry=False, faulty=Fal
                 st["timer_idx"] = at[1]
                 at_t = None
             elif at == ("draw",):
-                span = {"idle": 1.0, "one": 1.0, "queued": 2.0, "reset": 1.5, "startup": 2.6}[workload]
+                span = {"idle": 1.0, "one": 1.0, "queued": 2.0, "reset": 1.5, "startup": 2.6, "scan": 1.8}[workload]
                 if tape.draw(2, "at_timer"):
                     st["at_timer"] = True  # resolved below once the workload has armed its timers
                     at_t = None
                 else:
                     at_t = t0 + span * tape.draw(1000, "at") / 1000.0
             else:
-                at_t = at
+                at_t = at + (loop.time() - 0.1 - st["t_plain"])  # (instants of the dry run, shifted by what a reconnect added)
             if at_t is not None:
                 loop.external(at_t, inject, group=None if sched and tape.draw(2, "grp") else "inject")
         # the workload
@@ -317,6 +333,10 @@ def run_one(workload, kind, code, at, tape, sched, detail, dry=False, faulty=Fal
             tracked("setSourceRoute", ez.setSourceRoute(destination=0x1234, relayList=[]))
             tracked("getValue", ez.getValue(valueId=t.EzspValueId.VALUE_FREE_BUFFERS))
             tracked("nop", ez.nop())
+        elif workload == "scan":
+            # an operation that is completed by callbacks (results, then a completion frame) rather than by its command's response
+            ncp.scan_step = 0.3
+            tracked("scan", ez.startScan(scanType=t.EzspNetworkScanType.ENERGY_SCAN, channelMask=t.Channels.from_channel_list([11, 15, 20]), duration=1))
         elif workload == "reset":
             nash.rst_delay = rst_delay
 
